@@ -1005,8 +1005,9 @@ impl SetU32 {
                 } else {
                     // Let's keep things sparse
                     // A dense set will cost us memory
-                    let newcap: u32 = s.cap + 1 + (crate::rand::rand32(s.cap, s.bits) % s.cap);
-                    let mut new = Self::with_capacity_and_bits(newcap as usize, s.bits);
+                    let newcap =
+                        s.cap as usize + 1 + (crate::rand::rand32(s.cap, s.bits) % s.cap) as usize;
+                    let mut new = Self::with_capacity_and_bits(newcap, s.bits);
                     // new.debug_me("initial new");
                     for v in self.iter() {
                         new.insert(v);
@@ -1065,8 +1066,9 @@ impl SetU32 {
                     return true;
                 }
                 // println!("no room in the set... {:?}", a);
-                let newcap: u32 = s.cap + 1 + (crate::rand::rand32(s.cap, s.bits) % s.cap);
-                let mut new = Self::with_capacity_and_bits(newcap as usize, s.bits);
+                let newcap =
+                    s.cap as usize + 1 + (crate::rand::rand32(s.cap, s.bits) % s.cap) as usize;
+                let mut new = Self::with_capacity_and_bits(newcap, s.bits);
                 // new.debug_me("initial new");
                 match new.internal_mut() {
                     InternalMut::Empty => unreachable!(),
